@@ -123,7 +123,7 @@ def judge_pair(name1, s1, name2, s2, N, out):
         out["problems"].append(("bijection-json-roundtrip-raises", inp, specrun.exc_info(exc)))
     for tag, bj in cands:
         try:
-            for n in range(N + 1 - (1 if len(s1.root.alphabet) > 2 else 0)):
+            for n in range(N + 1 - (1 if len(getattr(s1.root, 'alphabet', 'ab')) > 2 else 0)):
                 dom = sorted(s1.root.objects_of_size(n))
                 cod = sorted(s2.root.objects_of_size(n))
                 img = [bj.map(w) for w in dom]
@@ -198,6 +198,27 @@ def dot_specs(rnd):
         sd = rnd.randrange(1000)
         try:
             specs.append(({"dot": list(pt), "alphabet": al, "db": db, "seed": sd}, dot_spec(pt, al, db, sd)))
+        except SpecificationNotFound:
+            pass
+        except speccheck.Timeout:
+            raise
+        except Exception:  # noqa: BLE001  (faults of a plain search belong to C01/C04)
+            pass
+        finally:
+            specrun.quiet()
+    return specs
+
+
+def gram_specs(rnd):
+    """specifications of a U-gram universe whose rule `mark a letter` is not injective forwards (a NonBijectiveRule: the maps of a
+    bijection have to carry the index of the preimage): the same universe found twice (other database / seed / time slicing)"""
+    sig = rnd.choice(["N", "N", "NN", "NP"])
+    specs = []
+    for _ in range(2):
+        cfg = dict(gram=list(sig), gram_flat=True, alpha="ab", db=rnd.choice(["RuleDB", "RuleDBForgetStrategy", "RuleDBForest"]),
+                   seed=rnd.randrange(10**6), perc=rnd.choice([100, 20, 1]), smallest=False, expand_verified=False)
+        try:
+            specs.append(({"cfg": cfg}, specrun.search(cfg)[1]))
         except SpecificationNotFound:
             pass
         except speccheck.Timeout:
@@ -288,6 +309,10 @@ def worker(args):
                     judge_pair(n1, a, n2, b, N, out)
             if specs:
                 judge_pair(specs[0][0], specs[0][1], specs[0][0], specs[0][1], N, out)
+            grams = gram_specs(random.Random(rnd.randrange(10**9))) if rnd.random() < 0.4 else []
+            out["specs"] += len(grams)
+            for (n1, a), (n2, b) in itertools.combinations(grams, 2):
+                judge_pair(n1, a, n2, b, min(N, 5), out)
             out["specs"] += len(dots)
             for (n1, a), (n2, b) in itertools.combinations(dots, 2):
                 judge_pair(n1, a, n2, b, min(N, 5), out)
